@@ -605,6 +605,18 @@ pub fn run(run: &mut Run) -> Result<(), String> {
     let prop = run.prop.clone();
     let mut plan = Plan::empty();
     let sub8: Vec<u8> = vec![63, 60, 56, 36, 35, 31, 9, 0];
+    // release profile (no overflow checks, no debug assertions): the counters are where wrapping
+    // arithmetic would show, so the clock roots and a shallow start tree are explored again
+    let rel = run.config.ends_with("-rel");
+    if rel {
+        plan.clock = Some(if q { b(2, 1) } else { b(3, 2) });
+        plan.start = Some(b(2, 1));
+        plan.lines = Some(b(1, 1));
+        let mon = monitor_for(&prop, !q);
+        run.rule = "release profile: clock roots (half-move clock 98-100 x full-move number 65534/65535 x both colours), a shallow start tree and the curated lines, same monitors".into();
+        run_plan(run, &plan, mon.as_ref(), &NoCand);
+        return Ok(());
+    }
     match prop.as_str() {
         "C01" | "C02" => {
             // C02 checks every outgoing edge of every visited state (also at the frontier), so the
@@ -652,9 +664,11 @@ pub fn run(run: &mut Run) -> Result<(), String> {
                 plan.raws.push((Box::new(PromoUniverse { sliders: vec![Kind::R] }), b(d1, 0)));
                 plan.raws.push((Box::new(Material), b(0, 0)));
                 plan.raws.push((Box::new(EpCheck { second: vec![Kind::Q], files: (0..8).collect() }), b(0, 0)));
-                plan.raws.push((Box::new(Caged { inner: Box::new(CheckPin { kings: vec![15, 55] }), variants: 3 }), b(0, 0)));
+                plan.raws.push((Box::new(Caged { inner: Box::new(CheckPin { kings: vec![15, 55] }), variants: 3, mover: true }), b(0, 0)));
+                plan.raws.push((Box::new(CastlePlay { visitors: vec![Kind::R] }), b(if prop == "C01" { 3 } else { 2 }, 0)));
             } else {
-                plan.raws.push((Box::new(Caged { inner: Box::new(CheckPin { kings: vec![15, 55, 12, 52, 20, 44, 0, 63, 27] }), variants: 3 }), b(0, 0)));
+                plan.raws.push((Box::new(CastlePlay { visitors: vec![Kind::R, Kind::Q, Kind::N] }), b(if prop == "C01" { 3 } else { 2 }, 0)));
+                plan.raws.push((Box::new(Caged { inner: Box::new(CheckPin { kings: vec![15, 55, 12, 52, 20, 44, 0, 63, 27] }), variants: 3, mover: true }), b(0, 0)));
                 plan.raws.push((Box::new(EpCheck { second: vec![Kind::B, Kind::R, Kind::Q], files: (0..8).collect() }), b(d1, 0)));
                 plan.raws.push((Box::new(PinUniverse { kings: vec![27, 36, 18, 45, 4], far_side: true }), b(0, 0)));
                 plan.raws.push((Box::new(PromoUniverse { sliders: vec![Kind::R, Kind::B, Kind::Q] }), b(d1, 0)));
@@ -702,7 +716,9 @@ pub fn run(run: &mut Run) -> Result<(), String> {
                 plan.raws.push((Box::new(EpUniverse::before_push(q)), b(1, 0)));
                 plan.raws.push((Box::new(PromoUniverse { sliders: vec![Kind::R] }), b(1, 0)));
                 plan.raws.push((Box::new(Battery { enemy_kings: vec![35, 28, 0, 63, 4, 59], stride: 1 }), b(1, 0)));
+                plan.raws.push((Box::new(CastlePlay { visitors: vec![Kind::R] }), b(3, 0)));
             } else {
+                plan.raws.push((Box::new(CastlePlay { visitors: vec![Kind::R, Kind::Q, Kind::N] }), b(3, 1)));
                 plan.raws.push((Box::new(Battery { enemy_kings: (0..64).collect(), stride: 1 }), b(1, 1)));
                 plan.raws.push((Box::new(EpCheck { second: vec![Kind::Q], files: (0..8).collect() }), b(1, 0)));
                 plan.lines = Some(b(3, 2));
@@ -742,7 +758,7 @@ pub fn run(run: &mut Run) -> Result<(), String> {
                 plan.lines = Some(b(1, 1));
             } else {
                 plan.raws.push((Box::new(EpCheck { second: vec![Kind::B, Kind::R, Kind::Q], files: (0..8).collect() }), b(0, 0)));
-                plan.raws.push((Box::new(Caged { inner: Box::new(CheckPin { kings: vec![15, 55] }), variants: 3 }), b(0, 0)));
+                plan.raws.push((Box::new(Caged { inner: Box::new(CheckPin { kings: vec![15, 55] }), variants: 3, mover: true }), b(0, 0)));
                 plan.raws.push((Box::new(PinUniverse { kings: vec![27, 36, 18], far_side: true }), b(0, 0)));
                 plan.raws.push((Box::new(Material), b(0, 0)));
                 plan.raws.push((Box::new(PinUniverse { kings: vec![4, 27, 0, 60, 36], far_side: false }), b(0, 0)));
